@@ -8,8 +8,6 @@ import Chrono.Spec.InstantSpec
 namespace Chrono.Spec
 open Chrono.M Chrono.Extracted
 
-instance (dt : NaiveDT) : Decidable (NDTInv dt) := by unfold NDTInv; exact inferInstance
-instance (dt : NaiveDT) : Decidable (NonLeap dt) := by unfold NonLeap; exact inferInstance
 
 /-- day numbers of `NaiveDate::MIN` and `NaiveDate::MAX` -/
 def DN_MIN : Int := dayNumOf Date.MIN
